@@ -24,9 +24,9 @@ HONEST = "the peer is honest and only packets the peer emitted are delivered (an
 NOFORGE = "unforgeability of ChaCha20-Poly1305 / XChaCha20-Poly1305 is not provable: what is proved is that opening succeeds only on the exact output of a seal under the same key, nonce and associated data (aead_open_iff); that a party without the key cannot produce such bytes is the assumption"
 
 _ALL = {
-    "C01": {"suites": ["r-pair", "r-server"], "assumptions": [HONEST, MISUSE, COUNTERS]},
-    "C02": {"suites": ["r-pair", "r-server"], "assumptions": [HONEST, MISUSE, COUNTERS]},
-    "C03": {"suites": ["r-pair", "r-server", "r-codec"], "assumptions": [HONEST, MISUSE, COUNTERS]},
+    "C01": {"suites": ["r-pair", "r-server", "t-udp"], "assumptions": [HONEST, MISUSE, COUNTERS]},
+    "C02": {"suites": ["r-pair", "r-server", "t-udp"], "assumptions": [HONEST, MISUSE, COUNTERS]},
+    "C03": {"suites": ["r-pair", "r-server", "r-codec", "t-udp"], "assumptions": [HONEST, MISUSE, COUNTERS]},
     "C04": {"suites": N_ALL, "assumptions": [NOFORGE, "sequence numbers below 2^64 - 256"]},
     "C05": {"suites": ["n-world", "n-codec"], "assumptions": [NOFORGE]},
     "C06": {"suites": ["r-hostile", "r-server", "r-codec"], "assumptions": [MISUSE, COUNTERS]},
